@@ -3,48 +3,41 @@ package main
 import (
 	"fmt"
 	"os"
-	"time"
 
 	"verif/internal/chain"
+	"verif/internal/checks"
 )
 
 func main() {
-	defer chain.CleanupSockets()
-	if len(os.Args) > 1 && os.Args[1] == "smoke" {
-		smoke()
-		return
-	}
-	fmt.Println("usage: vcheck <prop> <tier>")
-	os.Exit(2)
+	code := run()
+	chain.CleanupSockets()
+	os.Exit(code)
 }
 
-func smoke() {
-	cfg := chain.Config{
-		Vals: []chain.GenVal{{Key: 0, Stake: 2 * chain.MinStake}, {Key: 1, Stake: 3 * chain.MinStake}},
-		Accs: []chain.GenAcc{{Key: 0, Balance: 5000000}, {Key: 1, Balance: 5000000}, {Key: 2, Balance: 5000000}, {Key: 3, Balance: 1000000}},
-		DAOTokens: 1000000, Owner: 3, DAOOwner: 3, Pruning: [2]int64{0, 1},
+func run() int {
+	if len(os.Args) < 3 {
+		fmt.Println("usage: vcheck <prop> quick|thorough | vcheck <prop> --replay <path> | vcheck _worker ...")
+		return 2
 	}
-	d := chain.NewDriver(cfg)
-	defer d.Close()
-	fmt.Println("init vals", chain.UpdatesString(d.InitVals), d.RuleErrs)
-	t0 := time.Now()
-	for i := 0; i < 100; i++ {
-		d.RunBlock(chain.Block{}, nil)
+	prop, tier := os.Args[1], os.Args[2]
+	if prop == "_worker" {
+		return checks.Worker(os.Args[2:])
 	}
-	fmt.Println("100 empty blocks", time.Since(t0))
-	t0 = time.Now()
-	for i := 0; i < 100; i++ {
-		r := d.RunBlock(chain.Block{Events: []chain.Event{{Kind: "tx", Tx: &chain.TxSpec{Msg: "send", From: 2, To: 3, Amount: 10}}}}, nil)
-		if i == 0 {
-			fmt.Println(r.Canon())
+	if tier == "--replay" {
+		if len(os.Args) < 4 {
+			fmt.Println("missing replay path")
+			return 2
 		}
+		return checks.Replay(prop, os.Args[3])
 	}
-	fmt.Println("100 1-tx blocks", time.Since(t0), "lookups", d.Index.Lookups)
-	r := d.RunBlock(chain.Block{Events: []chain.Event{{Kind: "tx", Tx: &chain.TxSpec{Msg: "stake", From: 2, Amount: chain.MinStake}}}}, nil)
-	fmt.Println(r.Canon())
-	v := d.App.Decode(d.App.RawDump())
-	fmt.Println("supply", v.Supply, "sum", v.SumBalances(), "pool", v.Pool, "vals", len(v.Vals))
-	for _, vv := range v.Vals {
-		fmt.Println(vv.Key, vv.Status, vv.Jailed, vv.Stake)
+	if tier != "quick" && tier != "thorough" {
+		fmt.Println("tier must be quick or thorough")
+		return 2
 	}
+	f, ok := checks.Registry[prop]
+	if !ok {
+		fmt.Println("unknown property", prop)
+		return 2
+	}
+	return f(tier)
 }
